@@ -78,6 +78,7 @@ pub fn c05(ctx: &mut Ctx) {
         let e = (0..k).map(|i| ((i << 24) ^ i.wrapping_mul(0x0001_0003), (i % 251) as u8)).collect();
         Pkt::Fb { kind: Kind::Payload, sender: 1, media: 2, fci: Fci::Fir(e), pad: 0 }
     }));
+    spaces.push(gens::fir_calls_vs_entries_space());
     run_cfg_spaces(ctx, spaces, |p, idx, l| {
         let var = Variant::new(idx % 2 == 1, Wrap::None);
         roundtrip_case(l, "roundtrip", p, var);
